@@ -190,6 +190,21 @@ package mkvs
 // ---- remote sync (C04): a fetched proof that does not contain the requested node is an error, never "absent" ----
 
 
+// ---- serving proofs (C04, completeness side): where the proof is anchored ----
+
+//@ func tree.SyncIterate
+//@   props C04
+//@   requires t != nil && request != nil
+//@   precall syncer\.NewProofBuilderForVersion$ :: argIs(0, request.Tree.Root.Hash) && argIs(1, request.Tree.Root.Hash)
+//@   precall mkvs\.Iterator\)\.GetProof$ :: ItErrNil(it)
+//@   note the proof served for an iteration is anchored at the tree ROOT (an iteration may leave the requester's subtree; a proof anchored at the requested position drops the nodes outside it and no longer determines the keys asked about), and it is taken only from an iterator without error
+
+//@ func tree.SyncGetPrefixes
+//@   props C04
+//@   requires t != nil && request != nil
+//@   precall syncer\.NewProofBuilderForVersion$ :: argIs(0, request.Tree.Root.Hash) && argIs(1, request.Tree.Root.Hash)
+//@   note the proof served for a prefix fetch is anchored at the tree root
+
 // ---- tree iterator descent (C03): which children of an internal node a Seek/Next step tries ----
 
 //@ ghost var GDoNext int
